@@ -76,7 +76,7 @@ def stream_cfg(ck):
     return cfg
 
 
-def run_engines(ck, b, progs, want_native=True, styles=('prefix',)):
+def run_engines(ck, b, progs, want_native=True, styles=('prefix', 'infix', 'prefix', 'mixed')):
     """progs: list of (id, ast).  Returns per program dict(dump, vm, nat)."""
     dump = ck.probe('nvm_dump.c')
     res = {}
@@ -84,7 +84,9 @@ def run_engines(ck, b, progs, want_native=True, styles=('prefix',)):
         def one(t):
             pid, p = t
             path = os.path.join(wd, 'p%s.nano' % pid)
-            open(path, 'w').write(progen.to_nano(p, styles[hash(pid) % len(styles)], random.Random(hash(pid))))
+            import zlib
+            hk = zlib.crc32(str(pid).encode())
+            open(path, 'w').write(progen.to_nano(p, 'infix-chain' if 'infix-chain' in str(pid) else styles[hk % len(styles)], random.Random(hk)))
             nvm = path + '.nvm'
             rc, o, e = langlib.run_cmd([b.bin('nano_virt'), path, '--emit-nvm', '-o', nvm], 30)
             d = None
